@@ -179,6 +179,58 @@ class CondGen:
             name = {v: k for k, v in ALIASES.items()}[name]
         return Leaf(cls, name, args, kwargs)
 
+    def sensible_leaf(self, datum):
+        """A Value-class leaf that is meaningful for this datum (right kind of callable for its type) and, four times
+        in five, TRUE of it: random class / callable / argument combinations are mostly degenerate (always false or
+        always an error), which hides defects that flip a true verdict."""
+        r = self.r
+        true = r.random() < 0.8
+        d = datum
+        if isinstance(d, bool) or d is None:
+            opts = [("Value", "equal_to", [d if true else 5]), ("Value", "in_", [[d, "zz"] if true else ["zz"]]),
+                    ("Value", "is_instance", [type(d) if true and d is not None else str])]
+        elif isinstance(d, int) and abs(d) < 2 ** 40:
+            k = r.choice([1, 2, 3])
+            opts = [("Value", "equal_to", [d if true else d + 1]), ("Value", "less_than", [d + 1 if true else d]),
+                    ("Value", "greater_than_or_equal_to", [d if true else d + 1]),
+                    ("Value", "in_range", [d - 1, d + 2] if true else [d + 1, d + 3]),
+                    ("Value", "in_", [[d, d + 5] if true else [d + 5]]), ("Value", "not_in", [[d + 7] if true else [d]]),
+                    ("Value", "factor_of", [d * k if true and d else d * k + 1]), ("Value", "is_instance", [int if true else str])]
+            if d:
+                divs = [x for x in (1, 2, 3, 5, 7) if d % x == 0]
+                opts.append(("Value", "has_factor", [r.choice(divs) if true else abs(d) + 1]))
+        elif isinstance(d, float):
+            opts = [("Value", "equal_to", [d if true else d + 1.0]), ("Value", "less_than", [d + 1.0 if true else d]),
+                    ("Value", "equal_to_approx", [d if true else d + 1.0]), ("Value", "is_instance", [float if true else int])]
+        elif isinstance(d, str):
+            opts = [("Value", "equal_to", [d if true else d + "x"]), ("Value", "in_", [[d, "q"] if true else ["q" + d]]),
+                    ("ValueLength", "equal_to", [len(d) if true else len(d) + 1]),
+                    ("ValueLength", "less_than", [len(d) + 1 if true else len(d)]), ("Value", "is_instance", [str if true else int])]
+        elif isinstance(d, list):
+            opts = [("ValueLength", "equal_to", [len(d) if true else len(d) + 1]),
+                    ("ValueLength", "greater_than_or_equal_to", [len(d) if true else len(d) + 1]),
+                    ("ValueLength", "in_", [[len(d), 99] if true else [99]]), ("Value", "is_instance", [list if true else dict])]
+            if len(d):
+                opts.append(("ValueLength", "has_factor", [len(d) if true else len(d) + 1]))
+        elif isinstance(d, dict):
+            keys = [k for k in d if isinstance(k, str)]
+            opts = [("ValueLength", "equal_to", [len(d) if true else len(d) + 1]), ("Value", "is_instance", [dict if true else list])]
+            if keys:
+                k1 = r.choice(keys)
+                opts += [("Value", "required_keys", [k1] if true else [k1 + "_missing"]),
+                         ("Value", "keys_contain_any_of", [k1, "zz"] if true else ["zz"]),
+                         ("Value", "keys_contain", [k1 if true else k1 + "_missing"]),
+                         ("Value", "keys_contain_all_of", keys[:2] if true else keys[:1] + ["zz"]),
+                         ("Value", "keys_contain_one_of", [k1, "zz"] if true else ["zz", "yy"]),
+                         ("Value", "forbidden_keys", ["zz"] if true else [k1])]
+                if len(keys) == len(d):
+                    opts += [("Value", "allowed_keys", (keys + ["extra"]) if true else keys[1:] + ["extra"]),
+                             ("Value", "keys_equal_to", list(keys) if true else list(keys) + ["zz"])]
+        else:
+            return self.leaf([d], cls="Value")
+        cls, m, args = r.choice(opts)
+        return Leaf(cls, m, list(args), {})
+
     def tree(self, doc, depth=3, classes=None, null_p=0.15):
         if depth <= 0 or self.r.random() < 0.35:
             if self.r.random() < null_p:
